@@ -92,6 +92,11 @@ class Ledger(object):
     def solver_time(self, backend, dt):
         self.solver_s[backend] = self.solver_s.get(backend, 0.0) + dt
 
+    def attr_reads(self, reads):
+        acc = self.extra.setdefault('_attr_reads', {})
+        for k, kinds in reads.items():
+            acc.setdefault(k, set()).update(kinds)
+
     def guard_stats(self, checked, skipped):
         g = self.extra.setdefault('normal_form_numeric_guard', {'equalities_re-evaluated_numerically': 0, 'evaluations_skipped': 0})
         g['equalities_re-evaluated_numerically'] += checked
@@ -199,6 +204,10 @@ class Ledger(object):
                 cov['optional_parameters_only_seen_at_their_default'] = never
         except Exception:
             pass
+        ar = self.extra.pop('_attr_reads', None)
+        if ar:
+            single = {k: sorted(v)[0] for k, v in sorted(ar.items()) if len(v) == 1 and sorted(v)[0] not in ('<symbolic>', '<object>')}
+            cov['attributes_read_with_one_constant_value_in_every_harness'] = single
         cov.update(self.extra)
         ev = {'property_id': self.pid, 'tier': self.tier, 'seed': self.seed, 'level': self.level,
               'coverage': cov, 'assumptions': self.assumptions, 'wall_s': round(wall, 3),
@@ -229,8 +238,9 @@ def run_check(pid, body, level='proof'):
     led = Ledger(pid, level=level)
     try:
         body(led)
-        from . import numguard
+        from . import numguard, pysym
         led.guard_stats(numguard.STATS['checked'], numguard.STATS['skipped'])
+        led.attr_reads({k: set(v) for k, v in pysym.ATTR_READS.items()})
     except Undecided as e:
         led.undecide('engine', 'cmverif', str(e))
     except Exception:
